@@ -711,12 +711,44 @@ func init() {
 		}
 		return []Case{cellCase(cellSpec{t: t, md: md, v: f["v"], u: f["u"] == "1", ext: strings.Join(ext, " "), rest: unhx(f["rest"])}, "replay", true)}
 	}
-	register(&Property{ID: "C10", Gen: genC10, Chunks: chunksC10, Replay: replayCell,
-		Rule: "abstract values -> Spec writer bytes (Lean) -> real CellBytes/cellLength vs Lean model vs canonical text; 8/16-bit domains exhaustive x2 signedness, 24-bit exhaustive in thorough, 32/64-bit boundaries + random, all YEAR bytes, BIT 1..64, ENUM 1-2, SET 1..8, float classes + random bits (float texts checked to parse back to the same bits, exponent-free). Non-trivial: value != 0"})
+	register(&Property{ID: "C10", Gen: genC10, Chunks: chunksC10, Extra: extraC10,
+		Replay: func(line string) []Case {
+			if strings.HasPrefix(line, "hist ") {
+				return replayHist(line)
+			}
+			return replayCell(line)
+		},
+		Rule: "end to end (signedness reaches the decoder from the mapper's column): histories over integer-heavy tables of mixed signedness with partial before / after images through the real parseEvents, values with the top bit set, delivered text vs the Spec's; cell level: abstract values -> Spec writer bytes (Lean) -> real CellBytes/cellLength vs Lean model vs canonical text; 8/16-bit domains exhaustive x2 signedness, 24-bit exhaustive in thorough, 32/64-bit boundaries + random, all YEAR bytes, BIT 1..64, ENUM 1-2, SET 1..8, float classes + random bits (float texts checked to parse back to the same bits, exponent-free). Non-trivial: value != 0"})
 	register(&Property{ID: "C11", Gen: genC11, Replay: replayCell,
 		Rule: "every valid (p,s), p in 1..65, s in 0..min(30,p) x {zero, all nines, single low digit, each 9-digit group first non-zero, random} x sign; non-trivial: value != 0"})
 	register(&Property{ID: "C12", Gen: genC12, Chunks: chunksC12, Extra: extraC12, Replay: replayCell,
 		Rule: "DATE lattice (every 37th point quick / every 3rd thorough, all points of the boundary years), old TIME both signs to 838h, old DATETIME, TIME2/DATETIME2/TIMESTAMP2 fsp 0..6 boundary+random, all 2^24 raw values of the 3-byte DATE and old TIME encodings impl-vs-model in thorough, TIMESTAMP under several process time zones (offset and civil text obtained from the time package directly); non-trivial: not the all-zero value"})
 	register(&Property{ID: "C13", Gen: genC13, Replay: replayCell,
 		Rule: "declared lengths VARCHAR {0,1,2,254..257,1000,65535,random}, CHAR 0..1023, blob length bytes 1..4 x actual lengths {0,1,255,256,max,random} x arbitrary bytes; NULL/empty/absent via the row-column cases; non-trivial: non-empty payload"})
+}
+
+// extraC10: "read as two's complement unless the table mapper marks the column unsigned" end to end — the flag travels
+// mapper -> tableCache -> getValuesFromRow / getIdentifiesFromRow -> CellBytes, by table-column ordinal. Histories over
+// integer-heavy tables of mixed signedness, partial images (so that the image ordinal and the table ordinal differ),
+// values with the top bit set half of the time.
+func extraC10(col *Collector, r *RNG, tier string) {
+	n := 120
+	if tier == "thorough" {
+		n = 2500
+	}
+	var cs []Case
+	for i := 0; i < n; i++ {
+		h := genAttributionHistory(r, allCfgs[i%len(allCfgs)])
+		c := histCase(h, firstFile, 4, "signedness-end-to-end", true, "")
+		inner := c.Run
+		c.Run = func(resp map[string]string) Outcome {
+			o := inner(resp)
+			if !o.OracleOK {
+				o.FindingKey = "signedness-end-to-end"
+			}
+			return o
+		}
+		cs = append(cs, c)
+	}
+	runCases(col, theDriver, cs)
 }
